@@ -70,7 +70,9 @@ func (s *FakeStaking) toVal(v fakeVal) stakingtypes.Validator {
 	if v.bonded {
 		st = stakingtypes.Bonded
 	}
-	return stakingtypes.Validator{ConsensusPubkey: v.pk, OperatorAddress: v.addr.String(), Status: st}
+	// a validator holds its stake whether it is in the bonded set or not (power = tokens / power reduction)
+	return stakingtypes.Validator{ConsensusPubkey: v.pk, OperatorAddress: v.addr.String(), Status: st,
+		Tokens: sdk.NewInt(v.power).Mul(sdk.DefaultPowerReduction), DelegatorShares: sdk.NewDec(v.power)}
 }
 
 func (s *FakeStaking) GetBondedValidatorsByPower(ctx sdk.Context) []stakingtypes.Validator {
